@@ -350,7 +350,7 @@ public:
 						if (i + j < static_cast<unsigned>(nrBlocks)) {
 							segment += _block[i + j];
 							_block[i + j] = static_cast<bt>(segment);
-							segment >>= bitsInBlock;
+							if constexpr (bitsInBlock == 64) segment = 0; else segment >>= bitsInBlock; // a shift by the full width of the accumulator is undefined
 						}
 					}
 				}
@@ -372,7 +372,7 @@ public:
 						if (i + j < static_cast<unsigned>(nrBlocks)) {
 							segment += _block[i + j];
 							_block[i + j] = static_cast<bt>(segment);
-							segment >>= bitsInBlock;
+							if constexpr (bitsInBlock == 64) segment = 0; else segment >>= bitsInBlock; // a shift by the full width of the accumulator is undefined
 						}
 					}
 				}
@@ -387,7 +387,7 @@ public:
 		for (unsigned i = 0; i < nrBlocks; ++i) {
 			segment += static_cast<std::uint64_t>(_block[i]) * scaleFactor;
 			_block[i] = static_cast<BlockType>(segment);
-			segment >>= bitsInBlock;
+			if constexpr (bitsInBlock == 64) segment = 0; else segment >>= bitsInBlock; // a shift by the full width of the accumulator is undefined
 		}
 		return *this;
 	}
